@@ -362,7 +362,14 @@ pub fn run(tier: &str) -> i32 {
                         rep.violation(format!("clustered/{api}"), format!("byte {v} parsed as {}", h.clustered), json!({"kind":"bytes","hex":hex(&b)}));
                     }
                 }
-                (false, Out::Ok(_)) | (false, Out::Err(_)) => {}
+                (false, Out::Err(_)) => {}
+                (false, Out::Ok((h, _))) => {
+                    // a byte other than 0/1 may be refused; if it is accepted, encoding must still be lossless
+                    match header_write_sync(&h) {
+                        Out::Ok(back) if back.as_slice() == b.as_slice() => {}
+                        o => rep.violation(format!("clustered-accepted-not-reproduced/{api}"), format!("header with clustered byte {v} is accepted but serialises back as {}", match o { Out::Ok(x) => format!("byte {}", x.get(96).copied().unwrap_or(0)), other => other.kind().to_string() }), json!({"kind":"bytes","hex":hex(&b)})),
+                    }
+                }
                 (_, o) => rep.violation(format!("clustered-{}/{api}", o.kind()), format!("clustered byte {v}: {}", o.describe()), json!({"kind":"bytes","hex":hex(&b)})),
             }
         }
